@@ -421,7 +421,11 @@ func c16Expect(c *c16Case) (e c16Exp) {
 	pe := c16PathClass(c.Path)
 	switch pe.Kind {
 	case "bare":
-		ne.Src = "doh/bare-path+" + ne.Src
+		if ne.MustErr && ne.Why == "strict-outside" {
+			ne.Src = "doh/" + ne.Src
+		} else {
+			ne.Src = "doh/bare-path+" + ne.Src
+		}
 
 		return ne
 	case "invalid-label":
@@ -436,7 +440,7 @@ func c16Expect(c *c16Case) (e c16Exp) {
 		}
 		switch {
 		case ne.MustErr && ne.Why == "strict-outside":
-			return c16Exp{MustErr: true, Src: src, Why: "strict-outside"}
+			return c16Exp{MustErr: true, Src: "doh/" + ne.Src, Why: "strict-outside"}
 		case ne.MustErr:
 			return c16Exp{IDs: []string{pe.ID}, AllowErr: true, Zones: []string{"path-id-with-invalid-label-in-server-name"}, Src: src}
 		case len(nameIDs) == 0 && (!ne.AllowErr || !c.Strict || c.Conf == ""):
@@ -467,7 +471,7 @@ func c16Expect(c *c16Case) (e c16Exp) {
 	// finds; or going on with the server name.
 	src := "doh/" + pe.Zone + "+" + ne.Src
 	if ne.MustErr && ne.Why == "strict-outside" {
-		return c16Exp{MustErr: true, Src: src, Why: "strict-outside"}
+		return c16Exp{MustErr: true, Src: "doh/" + ne.Src, Why: "strict-outside"}
 	}
 	e = c16Exp{AllowErr: true, Src: src, Zones: append([]string{pe.Zone}, ne.Zones...)}
 	e.IDs = append(e.IDs, pe.Cands...)
@@ -494,12 +498,11 @@ type c16Obs struct {
 
 // c16Boundary pushes the context through HandleBefore and reads the ClientID
 // from the request-id cache, as the processing stage does.
-func c16Boundary(s *Server, c *c16Case, reqID uint64) (o c16Obs) {
-	pctx := c16Ctx(c, reqID)
+func c16Boundary(s *Server, pctx *proxy.DNSContext) (o c16Obs) {
 	o.Rcode = -1
 	err := s.HandleBefore(nil, pctx)
 	var key [8]byte
-	binary.BigEndian.PutUint64(key[:], reqID)
+	binary.BigEndian.PutUint64(key[:], pctx.RequestID)
 	o.ID = string(s.clientIDCache.Get(key[:]))
 	if err != nil {
 		o.Failed = true
@@ -514,9 +517,9 @@ func c16Boundary(s *Server, c *c16Case, reqID uint64) (o c16Obs) {
 }
 
 // c16Direct calls the extraction function itself.
-func c16Direct(s *Server, c *c16Case, reqID uint64) (o c16Obs) {
+func c16Direct(s *Server, pctx *proxy.DNSContext) (o c16Obs) {
 	o.Rcode = -1
-	id, err := s.clientIDFromDNSContext(c16Ctx(c, reqID))
+	id, err := s.clientIDFromDNSContext(pctx)
 	o.ID = id
 	if err != nil {
 		o.Failed = true
@@ -1008,9 +1011,28 @@ func (r *c16Runner) observe(c *c16Case) (b, d c16Obs, ok bool) {
 	}()
 	r.configure(c)
 	r.reqID++
-	b = c16Boundary(r.s, c, r.reqID)
+	b = c16Boundary(r.s, c16Ctx(c, r.reqID))
 	r.reqID++
-	d = c16Direct(r.s, c, r.reqID)
+	d = c16Direct(r.s, c16Ctx(c, r.reqID))
+
+	return b, d, true
+}
+
+// observeReal is observe for a context delivered by a real transport.  The
+// request id is replaced by a fresh one of the runner, because the cache is
+// keyed by it.
+func (r *c16Runner) observeReal(c *c16Case, pctx *proxy.DNSContext) (b, d c16Obs, ok bool) {
+	defer func() {
+		if v := recover(); v != nil {
+			ok = false
+			r.rep.Violate("panic-in-extraction:"+c.Proto, fmt.Sprintf("panic: %v", v), map[string]any{"case": c, "real_transport": true})
+		}
+	}()
+	r.configure(c)
+	r.reqID++
+	pctx.RequestID = r.reqID
+	b = c16Boundary(r.s, pctx)
+	d = c16Direct(r.s, pctx)
 
 	return b, d, true
 }
@@ -1204,7 +1226,7 @@ func TestVerifC16(t *testing.T) {
 	}
 	rep.EventN("generated_cases", n)
 
-	c16Calibrate(t, rep)
+	c16Calibrate(t, r)
 
 	// The run must have seen every kind of demand and every kind of outcome.
 	need := map[string]int{
